@@ -13,7 +13,7 @@ use crate::vtime::{HOUR, TOL};
 pub fn prop() -> Prop {
   Prop {
     id: "C07",
-    rule: "case = (operator in observe_on / delay(d) / delay_subscription(d) / subscribe_on / delay_at / delay_subscription_at, d in {0,1,2,5} ticks, _at instants now+{1,2,3}h or now-{1,2}h; local, per-node _threads or all-thread-safe build; timed script of <= 10 steps (one case in eight: preceded by a burst of 30..70 items) on the virtual clock (uniquely numbered items, one terminal, gaps 1/2/3/6 ticks, executor steps; in one hot observe_on / delay case in four the subscriber itself sends item+5000 into the source from inside its callback when it receives 1..2 chosen items - those count as source items produced at the time of that delivery) followed by a tail that advances past every pending timer; scheduler model FIFO-prompt, FIFO-late (runs only at script steps) or any-ready-task-next (k-worker pool) with generated run order). \
+    rule: "case = (operator in observe_on / delay(d) / delay_subscription(d) / subscribe_on / delay_at / delay_subscription_at, d in {0,1,2,5} ticks (one delay case in eight: in units of 0.7 s or 1 s + 1 ns, the script's gaps scaled alike), _at instants now+{1,2,3}h or now-{1,2}h; local, per-node _threads or all-thread-safe build; timed script of <= 10 steps (one case in eight: preceded by a burst of 30..70 items) on the virtual clock (uniquely numbered items, one terminal, gaps 1/2/3/6 ticks, executor steps; in one hot observe_on / delay case in four the subscriber itself sends item+5000 into the source from inside its callback when it receives 1..2 chosen items - those count as source items produced at the time of that delivery) followed by a tail that advances past every pending timer; scheduler model FIFO-prompt, FIFO-late (runs only at script steps) or any-ready-task-next (k-worker pool) with generated run order). \
            Oracle: delivered items are source items, each at most once; every item is delivered no earlier than production + d (for _at: the duration asked from the timer is the time remaining until the instant, within a 10 min tolerance, and 0 for a past instant); after quiescence the output is all source items in source order + the terminal (a prefix + error when the source failed); delayed subscription over a hot source sees exactly the events sent after its subscribing task ran. Non-trivial: >= 2 notifications pending at once, or a terminal scheduled while items are pending. Distinct by hash(case).",
     assumptions: &[
       "tick = 1 ns of virtual time; Instant::now() is real but only enters through hour-scale offsets compared with a 10 minute tolerance",
@@ -130,6 +130,22 @@ fn gen_case(c: &mut dyn Choices) -> Case {
         if !fb.contains(&id) {
           fb.push(id);
         }
+      }
+    }
+  }
+  // (appended picks) one delay / delay_subscription case in eight measures time in units of 0.7 s or 1 s + 1 ns instead
+  // of single ticks: delays of 0.7 / 1.4 / 3.5 s ..., script gaps and the tail scaled alike
+  let mut op = op;
+  if matches!(op, Un::Delay(_) | Un::DelaySubscription(_)) && c.pick(8) == 7 {
+    let unit = *c.one_of(&[700_000_000u64, 1_000_000_001]);
+    op = match op {
+      Un::Delay(d) => Un::Delay(d * unit),
+      Un::DelaySubscription(d) => Un::DelaySubscription(d * unit),
+      o => o,
+    };
+    for st in script.iter_mut() {
+      if let Step::Advance(n) = st {
+        *n *= unit;
       }
     }
   }
